@@ -80,6 +80,10 @@ def run(ctx):
     ctx.notes["concurrent_rounds"] = len(traces)
     ctx.sample(traces[0][:25])
     vlib.check_traces(ctx, traces, "conc", module="TraceResolverCache", cfg="TraceResolverCache.cfg", specname="ResolverCache.tla")
+    parked_stage(ctx)
+
+
+def parked_stage(ctx):
     # (C) parked interleavings: a lookup held at its first reading of the clock (the hook is the scheduler gate) while the
     # zone changes, the other goroutine refreshes the entry and time passes - schedules the free-running rounds hit rarely
     f_p = ctx.path("parked.ndjson")
